@@ -25,6 +25,20 @@ CLAIMED = {
    note="Across restarts the guarantee rests on the action store's refusal (C16.2) and the start-up proposal suppression; a custom Signer/ActionStore that misbehaves is out of scope.",
    technique="who-may-call, dominance and guard edge-dominance on SSA, value-shape identity of signature/target, post-dominance of the latch store, who-may-write",
  ),
+ "C08": dict(
+   category="other",
+   text="Abstract interpretation of the state machine's event loop SSA (tracked: lifecycle step, step-timer typestate, catching-up mode, round reset, counts of DecidePrecommit/ChooseProposedBlock requests, failure): from every step, every event case of handleLiveEvent is executed abstractly with every untracked branch forked; the transition relation has non-decreasing step rank without a reset, a precommit decision is requested only from a step below awaiting-precommits and moves the round to a precommit step, a prevote choice only from awaiting-proposal and moves past it, at most one of each per round and path. Guards on irreversible actions by edge-dominance: commit begin behind >= ByzantineMajority of precommit power for the most-voted non-nil hash of the same view; finalize requests only from four functions with the most-voted / mirror-supplied header; round advances only behind nil quorum / fully voted / precommit-delay timeout / jump-ahead; height advance only behind a stored finalization or elapsed commit wait with a finalization present; view-update dispatch behind same height, same round, strictly greater version; every step the step function can return handled at round entry (known finding D16).",
+   design_ref="DESIGN.md §4 C08",
+   note="Not an equivalence proof against a full Tendermint model: vote contents are abstracted, paths after a failed send/store (kernel stopping) are exempt, and the interpreter assumes A-CU (no view for the replayed height while catching up; structural half checked under C12.1). Strategy, driver and mirror behaviour are out of scope.",
+   technique="abstract interpretation over go/ssa (finite typestate domain, interprocedural summaries with fixpoint) + guard edge-dominance + enum/case analysis",
+ ),
+ "C12": dict(
+   category="other",
+   text="Timer typestate by abstract interpretation of the state machine SSA: the invariant 'timed step <=> StepTimer and CancelTimer set and a timer armed, of the kind belonging to that step; none while catching up' is inductive over every event case of the live and catch-up loops and round entry; on no abstract path is CancelTimer called while nil or a RoundTimer requested while the previous one is still armed. Structurally: StepTimer/CancelTimer always assigned as a pair; RoundTimer used only by the state machine; in the production timer a start request during the running phase may panic only on the default arm of a non-blocking poll of the cancel channel (cancel-then-start succeeds for every schedule: defect D17, fixed), the elapsed channel is closed only in the timer-fired case, cancel closes once via sync.Once.",
+   design_ref="DESIGN.md §4 C12",
+   note="Wall-clock behaviour of time.Timer and promptness are not decided. Paths after a failed send/store are exempt (the kernel is stopping). The Go memory model's guarantee that a closed channel is ready in select is trusted.",
+   technique="abstract interpretation over go/ssa with a timer typestate + pairing/who-may-call rules + select-case guard analysis of the timer goroutine",
+ ),
  "C04": dict(
    category="other",
    text="Decides the single-owner, forward-by-one structure of the mirror position: who may assign heights/rounds of the kernel views and with which values (shift: committing := voting, heights = voting height + 1; swap: exchange, next round = voting round + 1), FindView's equality guards and the untouched-state answer to stale lookups, the two writers of the persisted position and their argument order, save-header-before-position on the commit path (no recorded gap), replay only at the voting height, and whether acceptance compares the predecessor hash (known finding D12).",
